@@ -132,10 +132,28 @@ func init() {
 	reg := func(id, rule string, faultKinds []string, assumes []string) {
 		Register(&Prop{
 			ID: id, Level: "exploration", Rule: rule,
-			Quick:    Tier{Runs: 500, BudgetSec: 50},
+			Quick:    Tier{Runs: 1500, BudgetSec: 50},
 			Thorough: Tier{Runs: 30000, BudgetSec: 780},
-			RunSeed:  func(seed uint64, tier string) *Outcome { return vestRunSeed(id, seed, tier) },
-			Replay:   func(tr *kernel.Trace) *Outcome { return vestReplay(id, tr) },
+			RunSeed: func(seed uint64, tier string) *Outcome {
+				if id == "C17" && seed%10 == 9 {
+					// lineage across the v1.2.0 upgrade (the pre-upgrade layout has no lineage flags; the handler sets them)
+					tr := c16Trace(seed)
+					var x c16Extra
+					_ = jsonUnmarshal(tr.Extra, &x)
+					x.C17Upgrade = true
+					tr.Extra = mustJSON(x)
+					tr.Profile = "C17"
+					return c17UpgradeExec(tr)
+				}
+				return vestRunSeed(id, seed, tier)
+			},
+			Replay: func(tr *kernel.Trace) *Outcome {
+				var x c16Extra
+				if id == "C17" && len(tr.Extra) > 0 && jsonUnmarshal(tr.Extra, &x) == nil && x.C17Upgrade {
+					return c17UpgradeExec(tr)
+				}
+				return vestReplay(id, tr)
+			},
 			Real:     vestReal, Stub: vestStub, Assumes: assumes, FaultKinds: faultKinds,
 		})
 	}
@@ -154,4 +172,18 @@ func init() {
 		"distinct = hash of message kinds x routes, probes, outcome", fk, nil)
 	reg("C17", "same world; send/split/move/delegate heavy workload building chains; trace list must equal the lineage model after every message; both summary queries equal sums recomputed from bank LockedCoins, account vesting coins and pool records. "+
 		"distinct = hash of message kinds x routes, probes (lineage depth >= 2, delegated vesting present), outcome", fk, nil)
+}
+
+// c17UpgradeExec runs the upgrade world of C16 and keeps the lineage verdicts only.
+func c17UpgradeExec(tr *kernel.Trace) *Outcome {
+	o := c16Replay(tr)
+	var keep []*kernel.Violation
+	for _, v := range o.Violations {
+		if v.Property == "C17" {
+			keep = append(keep, v)
+		}
+	}
+	o.Violations = keep
+	o.Stats.Inc("probe.lineage_checked_across_upgrade")
+	return o
 }
